@@ -280,5 +280,85 @@ class WalkStream(Stream):
             yield dict(case, excluded=case["excluded"][:i] + case["excluded"][i + 1:])
 
 
+class ThreadedPyprojectDiscovery(Stream):
+    """a tree of pyproject-only projects whose PEP 517 back-end reads the working directory (as flit, poetry-core and
+    hatchling do), discovered with 1, 2 and 4 threads; the back-end gives overlapping calls the chance to overlap: the
+    set of (directory, project) pairs offered must be the same for every number of threads"""
+    name = "threaded-pyproject-discovery"
+    quick_n = 6
+    thorough_n = 150
+    batch = 2
+    parallel_quick = 3
+
+    def setup(self):
+        self.tmp = tempfile.mkdtemp(prefix="rvc18t")
+
+    def teardown(self):
+        shutil.rmtree(getattr(self, "tmp", ""), ignore_errors=True)
+
+    def generate(self, rng):
+        return {"projects": rng.sample(["alpha", "beta", "gamma", "delta"], rng.randint(2, 3)), "nest": rng.random() < 0.4}
+
+    SCRIPT = (
+        "import contextlib, io, json, os, sys\n"
+        "from req_compile.repos.source import SourceRepository\n"
+        "root, tree = sys.argv[1], sys.argv[2]\n"
+        "out = {}\n"
+        "for par in (1, 2, 4):\n"
+        "    rv = os.path.join(root, 'rendezvous' + str(par))\n"
+        "    os.makedirs(rv)\n"
+        "    os.environ['RV_BACKEND_RENDEZVOUS'] = rv\n"
+        "    try:\n"
+        "        with contextlib.redirect_stderr(io.StringIO()), contextlib.redirect_stdout(io.StringIO()):\n"
+        "            repo = SourceRepository(tree, parallelism=par)\n"
+        "            out[str(par)] = sorted([os.path.relpath(c.filename, tree), c.name] for c in repo.get_candidates(None))\n"
+        "    except Exception as ex:\n"
+        "        out[str(par)] = 'raise:' + type(ex).__name__\n"
+        "sys.__stdout__.write(json.dumps(out))\n")
+
+    def impl(self, case):
+        # a process of its own for every case: nothing an earlier case did to this worker can reach the discovery
+        import json as _json
+        import subprocess
+        import sys
+        from rv.core import digest, REPO
+        root = os.path.join(self.tmp, digest(case))
+        shutil.rmtree(root, ignore_errors=True)
+        tree = os.path.join(root, "tree")
+        for i, n in enumerate(case["projects"]):
+            pd = os.path.join(tree, "group" if (case["nest"] and i) else "", n)
+            os.makedirs(pd)
+            with open(os.path.join(pd, "pyproject.toml"), "w") as f:
+                f.write('[build-system]\nrequires = []\nbuild-backend = "rv_inplace_backend"\n\n[project]\nname = "' + n + '"\nversion = "1.0"\ndependencies = []\n')
+        harness_dir = os.path.dirname(os.path.dirname(os.path.dirname(os.path.abspath(__file__))))
+        env = dict(os.environ, PYTHONPATH=REPO + os.pathsep + harness_dir, PYTHONWARNINGS="ignore")
+        env.pop("RV_BACKEND_RENDEZVOUS", None)
+        try:
+            p = subprocess.run([sys.executable, "-W", "ignore", "-c", self.SCRIPT, root, tree], env=env, stdout=subprocess.PIPE,
+                               stderr=subprocess.PIPE, timeout=180, cwd=root)
+            out = _json.loads(p.stdout.decode("utf-8") or "{}")
+            if not out:
+                out = {"1": "raise:" + p.stderr.decode("utf-8", "replace")[-200:], "2": None, "4": None}
+        except subprocess.TimeoutExpired:
+            out = {"1": "timeout", "2": None, "4": None}
+        shutil.rmtree(root, ignore_errors=True)
+        return {"offered": out}
+
+    def flags(self, case, r):
+        return ["projects:" + str(len(case["projects"]))]
+
+    def oracle(self, case, r):
+        base = r["offered"]["1"]
+        want = sorted([os.path.join("group" if (case["nest"] and i) else "", n), n] for i, n in enumerate(case["projects"]))
+        fails = []
+        if base != want:
+            fails.append(("C18/pyproject-project-not-offered-as-declared", {"offered": base, "declared": want}))
+        for par in ("2", "4"):
+            if r["offered"][par] != base:
+                fails.append(("C18/offered-set-depends-on-the-number-of-threads", {"threads": par, "offered": r["offered"][par], "single-threaded": base}))
+                break
+        return fails
+
+
 def streams():
-    return [WalkStream()]
+    return [WalkStream(), ThreadedPyprojectDiscovery()]
